@@ -134,3 +134,106 @@ Qed.
 Example C14_mp_small_columns : forall j, (j < 2)%nat ->
   rle QcO (sqn (col QcO j ([[(qn 1); (qn 0)]; [(qn 1); (qn (-1))]] : list (list QcO)))) (1 + 1).
 Proof. intros j Hj. destruct j as [|[|j]]; [vm_compute; discriminate | vm_compute; discriminate | lia]. Qed.
+
+(* ================================================================== *)
+(* exact recovery for dictionaries with orthonormal columns (Solvers/OMPExact.v).
+   Real case; the modulus is the real absolute value [rabs] (no square root
+   needed); the selection ranges over EVERY index of maximal score. *)
+From PV Require Import OMPExact.
+
+Definition ortho_setting (F : OrdField) (nrm : list F -> F) n (A : list (list F)) (xs : list F)
+    (S : list nat) (sigma : F) (inner : list nat -> list F) : Prop :=
+  wfM F n A /\ length xs = n /\
+  (forall i j, (i < n)%nat -> (j < n)%nat -> dotu F (col F i A) (col F j A) = if Nat.eqb i j then 1 else 0) /\
+  (forall j, In j S <-> (j < n)%nat /\ nth j xs 0 <> 0) /\ NoDup S /\
+  omp_oracle F n A (mv F A xs) inner /\
+  (forall u, sqn u = 0 -> nrm u = 0) /\ (forall u, sqn u = 1 -> nrm u = 1) /\ rle F 0 sigma.
+
+(* correlation formula / coefficients / residual, for every state satisfying the local invariant *)
+Theorem C14_omp_orthonormal_corr : forall (F : OrdField) n (A : list (list F)) (xs : list F),
+  wfM F n A -> length xs = n ->
+  (forall i j, (i < n)%nat -> (j < n)%nat -> dotu F (col F i A) (col F j A) = if Nat.eqb i j then 1 else 0) ->
+  forall s, Inv F n A (mv F A xs) s ->
+  (forall j, (j < n)%nat -> cres F A s j = if in_dec Nat.eq_dec j (cols F s) then 0 else nth j xs 0) /\
+  (forall j, (j < n)%nat -> nth j (finalize F n s) 0 = if in_dec Nat.eq_dec j (cols F s) then nth j xs 0 else 0) /\
+  res F s = mv F A (vsub F xs (finalize F n s)).
+Proof. exact omp_orthonormal_corr. Qed.
+Print Assumptions C14_omp_orthonormal_corr.
+
+(* every admissible selection along a run is a NEW column of the support, of maximal |xs_j| among the remaining *)
+Theorem C14_omp_orthonormal_step : forall (F : OrdField) nrm n A xs S sigma inner nc nout,
+  ortho_setting F nrm n A xs S sigma inner ->
+  forall s tr i, trace F nrm n A (mv F A xs) nc nout sigma (step_omp F nrm A (mv F A xs) inner) (s :: tr) ->
+  guard F nout sigma s -> is_argmax F nrm n A nc s i ->
+  In i S /\ ~ In i (cols F s) /\
+  (forall j, (j < n)%nat -> ~ In j (cols F s) -> rle F (rabs F (nth j xs 0)) (rabs F (nth i xs 0))).
+Proof. intros F nrm n A xs S sigma inner nc nout (H1 & H2 & H3 & H4 & _ & [H6 H7] & H8 & H9 & H10).
+  exact (omp_orthonormal_select F nrm n A xs nc nout sigma inner S H1 H2 H3 H4 H6 H7 H8 H9 H10). Qed.
+Print Assumptions C14_omp_orthonormal_step.
+
+(* along every run: cols is a duplicate-free sublist of S with |cols| = iiter (invariant J) *)
+Theorem C14_omp_orthonormal_invariant : forall (F : OrdField) nrm n A xs S sigma inner nc nout,
+  ortho_setting F nrm n A xs S sigma inner ->
+  forall tr, trace F nrm n A (mv F A xs) nc nout sigma (step_omp F nrm A (mv F A xs) inner) tr ->
+  Forall (fun s => Inv F n A (mv F A xs) s /\ incl (cols F s) S /\ length (cols F s) = iiter F s) tr.
+Proof. intros F nrm n A xs S sigma inner nc nout (H1 & H2 & H3 & H4 & _ & [H6 H7] & H8 & H9 & H10) tr Ht.
+  eapply Forall_impl; [|exact (omp_orthonormal_invariant F nrm n A xs nc nout sigma inner S H1 H2 H3 H4 H6 H7 H8 H9 H10 tr Ht)].
+  intros s (Ha & _ & Hb & Hc). auto. Qed.
+Print Assumptions C14_omp_orthonormal_invariant.
+
+(* at most k = |S| steps; after k steps the returned vector IS xs and the residual is 0 *)
+Theorem C14_omp_orthonormal_exact : forall (F : OrdField) nrm n A xs S sigma inner nc nout,
+  ortho_setting F nrm n A xs S sigma inner ->
+  forall s tr, trace F nrm n A (mv F A xs) nc nout sigma (step_omp F nrm A (mv F A xs) inner) (s :: tr) ->
+  iiter F s = length tr /\ (iiter F s <= length S)%nat /\
+  (iiter F s = length S -> finalize F n s = xs /\ res F s = zeros F (length A)).
+Proof. intros F nrm n A xs S sigma inner nc nout (H1 & H2 & H3 & H4 & _ & [H6 H7] & H8 & H9 & H10).
+  exact (omp_orthonormal_exact F nrm n A xs nc nout sigma inner S H1 H2 H3 H4 H6 H7 H8 H9 H10). Qed.
+Print Assumptions C14_omp_orthonormal_exact.
+
+(* sigma = 0, niter_outer >= k, norm oracle definite: a run that has stopped made EXACTLY k steps and returns xs *)
+Theorem C14_omp_orthonormal_terminates : forall (F : OrdField) nrm n A xs S inner nc nout,
+  ortho_setting F nrm n A xs S 0 inner -> (forall u, rle F (nrm u) 0 -> sqn u = 0) -> (length S <= nout)%nat ->
+  forall s tr, trace F nrm n A (mv F A xs) nc nout 0 (step_omp F nrm A (mv F A xs) inner) (s :: tr) ->
+  ~ guard F nout 0 s ->
+  iiter F s = length S /\ length tr = length S /\ finalize F n s = xs /\ res F s = zeros F (length A).
+Proof. intros F nrm n A xs S inner nc nout (H1 & H2 & H3 & H4 & H5 & [H6 H7] & H8 & H9 & H10) Hd Hk s tr.
+  exact (omp_orthonormal_terminates F nrm n A xs nc nout 0 inner S H1 H2 H3 H4 H5 H6 H7 H8 H9 H10 Hd s tr eq_refl Hk). Qed.
+Print Assumptions C14_omp_orthonormal_terminates.
+
+(* ---- satisfiable: a signed permutation dictionary, xs = (2, 0, -3), S = {0, 2}; nrm := squared norm
+   (sends 0 to 0, 1 to 1, and is definite); inner := the explicit least-squares oracle [ortho_inner],
+   which solves the restricted normal equations for EVERY orthonormal dictionary ---- *)
+Definition Ao : list (list QcO) := [[qn 0; qn 1; qn 0]; [qn (-1); qn 0; qn 0]; [qn 0; qn 0; qn 1]].
+Definition xo : list QcO := [qn 2; qn 0; qn (-3)].
+Lemma Ao_orth : forall i j, (i < 3)%nat -> (j < 3)%nat ->
+  dotu QcO (col QcO i Ao) (col QcO j Ao) = if Nat.eqb i j then 1 else 0.
+Proof. intros i j Hi Hj. destruct i as [|[|[|i]]]; destruct j as [|[|[|j]]]; try lia; vm_compute; reflexivity. Qed.
+Example C14_ortho_setting_satisfiable :
+  ortho_setting QcO (@sqn QcO) 3 Ao xo [0; 2]%nat 0 (ortho_inner QcO Ao xo) /\
+  (forall u : list QcO, rle QcO (sqn u) 0 -> sqn u = 0).
+Proof. split.
+  - split; [repeat constructor|]. split; [reflexivity|]. split; [exact Ao_orth|]. split.
+    { intros j; split.
+      - intros [<-|[<-|[]]]; (split; [lia | vm_compute; discriminate]).
+      - intros [Hj Hn]. destruct j as [|[|[|j]]]; [left; auto | exfalso; apply Hn; vm_compute; reflexivity | right; left; auto | lia]. }
+    split; [repeat constructor; simpl; intuition lia|]. split.
+    { split; [apply ortho_inner_length | apply (ortho_inner_normal QcO 3 Ao xo Ao_orth)]. }
+    split; [auto|]. split; [auto|]. apply rle_refl.
+  - intros u H. apply rle_antisym; auto. apply sqn_nonneg.
+Qed.
+(* a complete run on it: two steps (column 2 first: |-3| > |2|), then the guard fails; x = xs *)
+Definition so0 := setup QcO (@sqn QcO) (mv QcO Ao xo).
+Definition stepo' := step_omp QcO (@sqn QcO) Ao (mv QcO Ao xo) (ortho_inner QcO Ao xo).
+Example C14_ortho_run :
+  trace QcO (@sqn QcO) 3 Ao (mv QcO Ao xo) false 5 0 stepo' [stepo' (stepo' so0 2) 0; stepo' so0 2; so0] /\
+  ~ guard QcO 5 0 (stepo' (stepo' so0 2) 0) /\ finalize QcO 3 (stepo' (stepo' so0 2) 0) = xo.
+Proof. split; [|split].
+  - apply trace_step; [apply trace_step; [apply trace_setup | |] | |].
+    + split; [cbn; lia | vm_compute; reflexivity].
+    + split; [lia|]. intros j Hj. destruct j as [|[|[|j]]]; try lia; vm_compute; discriminate.
+    + split; [cbn; lia | vm_compute; reflexivity].
+    + split; [lia|]. intros j Hj. destruct j as [|[|[|j]]]; try lia; vm_compute; discriminate.
+  - intros [_ H]. vm_compute in H. discriminate.
+  - vm_compute. reflexivity.
+Qed.
